@@ -24,7 +24,8 @@ let boolc b = if b then "1" else "0"
 
 let ext_of_string = function
   | "8BITMIME" -> M.E8BITMIME | "SMTPUTF8" -> M.ESMTPUTF8 | "DSN" -> M.EDSN
-  | "ENHANCEDSTATUSCODES" -> M.EENHANCED | "STARTTLS" -> M.ESTARTTLS | s -> failwith ("unknown capability " ^ s)
+  | "ENHANCEDSTATUSCODES" -> M.EENHANCED | "STARTTLS" -> M.ESTARTTLS
+  | s -> M.EOther (bytes_of_string (List.hd (split_on '_' s)))   (* a capability the client never looks up *)
 
 let parse_decision (s : string) : M.decision =
   match s with
